@@ -192,8 +192,8 @@ func (w *c12Worker) stressOnce(max, nr, nEnv int, seed uint64) c12StressOut {
 
 type c12StressStats struct {
 	Streams, Envelopes, Starts, Leaves, LeavesOfRun, Ticks, ClosersHit int64
-	MaxLive                                                         [4]int32
-	FailCount                                                       map[string]int
+	MaxLive                                                            [4]int32
+	FailCount                                                          map[string]int
 }
 
 func (x *c12Explorer) stress(rng *vk.Rng, streams, nEnv int) *c12StressStats {
